@@ -5,6 +5,59 @@ ROOT = os.path.dirname(os.path.dirname(os.path.abspath(__file__)))
 ALL = ["C%02d" % i for i in range(1, 21)]
 
 CHECKS = {
+ "C01": dict(
+    category="model_checking",
+    text="Codec_LhNew.tla (parameterised for -lh4/5/6/7/x- and LHARK -lk7-) defines block headers, the three code tables with their "
+         "n = 0 forms, zero-run forms and skip field, canonical prefix codes (Codec_Huff.tla, declarative) and LZ77 copies over a "
+         "space-filled window; TLC checks on all length vectors of <= 5 symbols that the transcription of tree_decode.c stays in "
+         "bounds, terminates and equals the canonical code on complete codes. Three-way agreement at real scale: an independent "
+         "encoder emits streams for structural cases (every code and offset symbol, all zero-run forms, skip values, single-symbol "
+         "tables, 16-bit codes, blocks of one command, empty blocks, distances into the pre-filled window) and random command lists; "
+         "the real decoder's every chunk must equal the TLA+ definition's chunk and the corresponding slice of the LZ77 expansion of "
+         "the commands. The definition is grounded on the third-party streams of the corpus.",
+    design_ref="DESIGN.md section 5, C01",
+    note="Encoder and TLA+ definition were written independently (different authorship within this project: sub-agents with no shared "
+         "code) and both agree with the third-party corpus streams.",
+    technique="TLA+ executable format definition (Codec_LhNew/Codec_Huff) used by TLC as trace validator of the real decoder's chunks; "
+              "three-way agreement with an independent encoder; TLC model checking of the tree builder on small alphabets"),
+ "C02": dict(
+    category="model_checking",
+    text="Codec_Lh1.tla carries the LZHUF reference algorithm (StartHuff, update with node exchange, reconst at MAX_FREQ, the fixed "
+         "position code); lhasa's -lh1- decoder, which maintains frequency groups instead, is run on streams from an independent LZHUF "
+         "encoder: skewed, tie-heavy and uniform symbol distributions, all copy lengths 3..60, distances 0/63/64/4095, streams of more "
+         "than 32768 symbols so that the tree is rebuilt repeatedly. TLC replays every stream through the reference and requires "
+         "every decoded command (chunk) of the C decoder to equal the reference's and the LZ77 expansion of the commands - any "
+         "divergence of the adaptive tree shows as a wrong symbol. Grounded on the corpus' -lh1- members.",
+    design_ref="DESIGN.md section 5, C02",
+    note="No bounded lock-step model of lhasa's group structure against the reference at small alphabet sizes was built; the lock-step "
+         "is checked on full-scale executions only.",
+    technique="TLA+ transcription of the LZHUF reference used by TLC to validate every decoded command of the real decoder; three-way "
+              "agreement with an independent LZHUF encoder"),
+ "C03": dict(
+    category="model_checking",
+    text="Codec_Lzs/Lz5/Null.tla define the LArc formats declaratively (flags, absolute ring positions, the LArc initial fill pattern by "
+         "region, write positions, self-overlapping copies); TLC checks on scaled-down rings that for all command lists of length "
+         "<= 3 the definition equals plain LZ77 expansion and the ring transcription. At real scale, an independent encoder's streams "
+         "(copies from every region of the lz5 pattern, never-written positions, seam positions, extreme lengths, overlap distances, "
+         "every literal count per flag byte, stored data of every length around the 1 KiB block size) are decoded by the real "
+         "decoders; every chunk must equal the definition's and the expansion of the commands. Grounded on the corpus.",
+    design_ref="DESIGN.md section 5, C03",
+    note="Streams ending inside a two-byte lz5 copy command are excluded (not well-formed).",
+    technique="TLA+ executable format definitions validated by TLC against the real decoders' chunks; three-way agreement with an "
+              "independent encoder; bounded model checking at scaled-down window sizes"),
+ "C04": dict(
+    category="model_checking",
+    text="Codec_Pm2.tla / Codec_Pm1.tla define the PMarc formats: move-to-front history with the PMarc initial order, pm2 table "
+         "(re)definition schedule 1K/2K/4K/8K/+4K counted per output byte also in the middle of copies with the optional-rebuild bit, "
+         "pm1 start-header trees, position-dependent copy ranges, byte blocks, and continuation on implicit zero bits. An independent "
+         "encoder drives every structural case (each history and copy class at its edges, each pm2 schedule state entered by a "
+         "literal / end of copy / mid-copy, all 32 pm1 trees, every pm1 threshold +-1, early stream end); the real decoder's chunks "
+         "must equal the definition's and the expansion of the commands. Grounded on the corpus' PMarc members (CRC recorded by PMarc).",
+    design_ref="DESIGN.md section 5, C04",
+    note="No public PMarc specification is available; definition and encoder were derived independently from the source and agree with "
+         "third-party data.",
+    technique="TLA+ executable format definitions validated by TLC against the real decoders' chunks; three-way agreement with an "
+              "independent PMarc encoder"),
  "C08": dict(
     category="exploration",
     text="Spec-directed exploration under AddressSanitizer and -fsanitize=bounds: inputs are corpus archives with substitutions "
@@ -247,7 +300,7 @@ CHECKS = {
               "table; replay of TLC behaviours; trace validation"),
 }
 
-NOT_YET = "machinery for this property is not built yet in this round (planned: DESIGN.md section 5)"
+NOT_YET = "not claimed"
 
 def main():
     checks = []
